@@ -23,6 +23,13 @@ var (
 	nul = byte('\000')
 )
 
+// maxNestingDepth is the nesting limit of encoding/json's scanner (and of this package's decoder).
+const maxNestingDepth = 10000
+
+func errExceededMaxDepth(cursor int64) error {
+	return errors.ErrSyntax("exceeded max depth", cursor)
+}
+
 func Compact(buf *bytes.Buffer, src []byte, escape bool) error {
 	if len(src) == 0 {
 		return errors.ErrUnexpectedEndOfJSON("", 0)
@@ -57,7 +64,7 @@ func compactAndWrite(buf *bytes.Buffer, dst []byte, src []byte, escape bool) err
 }
 
 func compact(dst, src []byte, escape bool) ([]byte, error) {
-	buf, cursor, err := compactValue(dst, src, 0, escape)
+	buf, cursor, err := compactValue(dst, src, 0, 0, escape)
 	if err != nil {
 		return nil, err
 	}
@@ -95,18 +102,18 @@ LOOP:
 	return cursor
 }
 
-func compactValue(dst, src []byte, cursor int64, escape bool) ([]byte, int64, error) {
+func compactValue(dst, src []byte, cursor, depth int64, escape bool) ([]byte, int64, error) {
 	for {
 		switch src[cursor] {
 		case ' ', '\t', '\n', '\r':
 			cursor++
 			continue
 		case '{':
-			return compactObject(dst, src, cursor, escape)
+			return compactObject(dst, src, cursor, depth, escape)
 		case '}':
 			return nil, 0, errors.ErrSyntax("unexpected character '}'", cursor)
 		case '[':
-			return compactArray(dst, src, cursor, escape)
+			return compactArray(dst, src, cursor, depth, escape)
 		case ']':
 			return nil, 0, errors.ErrSyntax("unexpected character ']'", cursor)
 		case '"':
@@ -125,7 +132,11 @@ func compactValue(dst, src []byte, cursor int64, escape bool) ([]byte, int64, er
 	}
 }
 
-func compactObject(dst, src []byte, cursor int64, escape bool) ([]byte, int64, error) {
+func compactObject(dst, src []byte, cursor, depth int64, escape bool) ([]byte, int64, error) {
+	depth++
+	if depth > maxNestingDepth {
+		return nil, 0, errExceededMaxDepth(cursor)
+	}
 	if src[cursor] == '{' {
 		dst = append(dst, '{')
 	} else {
@@ -148,7 +159,7 @@ func compactObject(dst, src []byte, cursor int64, escape bool) ([]byte, int64, e
 			return nil, 0, errors.ErrExpected("colon after object key", cursor)
 		}
 		dst = append(dst, ':')
-		dst, cursor, err = compactValue(dst, src, cursor+1, escape)
+		dst, cursor, err = compactValue(dst, src, cursor+1, depth, escape)
 		if err != nil {
 			return nil, 0, err
 		}
@@ -167,7 +178,11 @@ func compactObject(dst, src []byte, cursor int64, escape bool) ([]byte, int64, e
 	}
 }
 
-func compactArray(dst, src []byte, cursor int64, escape bool) ([]byte, int64, error) {
+func compactArray(dst, src []byte, cursor, depth int64, escape bool) ([]byte, int64, error) {
+	depth++
+	if depth > maxNestingDepth {
+		return nil, 0, errExceededMaxDepth(cursor)
+	}
 	if src[cursor] == '[' {
 		dst = append(dst, '[')
 	} else {
@@ -180,7 +195,7 @@ func compactArray(dst, src []byte, cursor int64, escape bool) ([]byte, int64, er
 	}
 	var err error
 	for {
-		dst, cursor, err = compactValue(dst, src, cursor, escape)
+		dst, cursor, err = compactValue(dst, src, cursor, depth, escape)
 		if err != nil {
 			return nil, 0, err
 		}
